@@ -558,7 +558,13 @@ var skippedShapes bool
 func runMutants(c *vlib.Check, ct *ctor, b build, enc []byte, t uint) {
 	root, err := space.Parse(enc)
 	if err != nil {
-		c.Internal("%s.%s: library encoding not readable by own reader: %v (%x)", ct.proto, ct.name, err, enc)
+		// not well-formed for the harness's reader: the round-trip half has already judged it
+		c.Eval(fmt.Sprintf("shape-of-encoding|%s.%s|%s", ct.proto, ct.name, b.desc), "encoding-unreadable")
+		shapeMu.Lock()
+		shapeNotes[ct.proto+"."+ct.name+"|unreadable"] = fmt.Sprintf("%s.%s(%s): library encoding %x is not readable by the harness's CBOR reader (%v); shape mutations skipped", ct.proto, ct.name, b.desc, clip(enc), err)
+		skippedShapes = true
+		shapeMu.Unlock()
+		return
 	}
 	fields := ct.fields
 	if b.own {
